@@ -65,7 +65,8 @@ func (l *storeLayer) clone() *storeLayer {
 
 type Store struct {
 	committed *storeLayer
-	pending   *storeLayer // non-nil while a Tx is open
+	open      []*txHandle // transactions begun and not finished
+	writer    *txHandle   // the one that holds the write lock (has written)
 	lastRowid int64
 	txOpen    bool
 	txSeq     int
@@ -1020,3 +1021,17 @@ func (in *Interp) sqlExecStmt(st *Store, layer *storeLayer, stmt *sqlStmt, param
 }
 
 var _ = types.Typ
+
+func (st *Store) finish(tx *txHandle) {
+	tx.done = true
+	tx.layer = nil
+	if st.writer == tx {
+		st.writer = nil
+	}
+	for i, o := range st.open {
+		if o == tx {
+			st.open = append(st.open[:i:i], st.open[i+1:]...)
+			break
+		}
+	}
+}
